@@ -524,3 +524,255 @@ def c15(tier):
                     "bootstrap chains only in the thorough tier (3 chains, different hash seeds per stage)"])
     log("C15: %d pipeline runs, %d (program, options) combinations compared, %d chains, %d violation class(es), %.1fs" % (evals, compiled, len(chains), len(reported), wall))
     return exit_code
+
+
+# ---------------------------------------------------------------------------------- C18
+
+def c18_damage(data, fault):
+    kind = fault[0]
+    if kind == "truncate":
+        return data[:fault[1]]
+    if kind == "bitflip":
+        b = bytearray(data)
+        b[fault[1]] ^= 1 << fault[2]
+        return bytes(b)
+    if kind == "zero_block":
+        b = bytearray(data)
+        off, n = fault[1], fault[2]
+        b[off:off + n] = bytes(min(n, len(b) - off))
+        return bytes(b)
+    if kind == "dup_block":
+        off, n = fault[1], fault[2]
+        return data[:off + n] + data[off:off + n] + data[off + n:]
+    if kind == "garbage_tail":
+        return data + bytes(fault[1])
+    raise ValueError(kind)
+
+
+def c18(tier):
+    import shutil, resource
+    t0 = time.time()
+    dbg = build_repo(("dora", "dora-runtime", "dora-startup"))
+    rel = build_sim(("harness",))
+    dora = os.path.join(dbg, "dora")
+    cannon = os.path.join(dbg, "dora-cannon-compiler")
+    pkgrt = os.path.join(rel, "pkgrt")
+    base = os.path.join(WORK, "c18")
+    shutil.rmtree(base, ignore_errors=True)
+    os.makedirs(base)
+    boots = os.path.join(base, "boots-stage1")
+    p = tb.sh([dora, "compile", "--internal-compile-boots", "--cannon", os.path.join(REPO, "pkgs/boots/boots.dora"), "-o", boots])
+    if p.returncode != 0:
+        harness_error("building boots stage1 failed")
+    budget = tier_budget(tier, 60, 1200)
+    s = seed()
+    tiny = os.path.join(base, "tiny.dora")
+    with open(tiny, "w") as f:
+        f.write("fn main() { println(\"hi\"); }\n")
+    sources = {"tiny": tiny, "trapio": os.path.join(VERIF, "workloads", "trapio.dora"), "sync": os.path.join(VERIF, "workloads", "sync.dora")}
+
+    def limits():
+        resource.setrlimit(resource.RLIMIT_AS, (6 << 30, 6 << 30))
+        resource.setrlimit(resource.RLIMIT_CORE, (0, 0))
+
+    def consume(consumer, pkg, out):
+        if consumer == "cannon":
+            cmd = [cannon, pkg, "-o", out]
+        elif consumer == "boots":
+            cmd = [boots, pkg, "-o", out]
+        elif consumer == "dora":
+            cmd = [dora, "compile", pkg, "--cannon", "-S", "-o", out[:-2]]
+        else:
+            cmd = [pkgrt, pkg]
+        try:
+            p = subprocess.run(cmd, stdout=subprocess.PIPE, stderr=subprocess.PIPE, timeout=120, preexec_fn=limits, cwd=base)
+        except subprocess.TimeoutExpired:
+            return {"rc": -9, "timeout": True, "stderr": "", "stdout": "", "sha": None}
+        art = sha(out) if consumer != "decoder" and p.returncode == 0 and os.path.exists(out) else None
+        return {"rc": p.returncode, "timeout": False, "stderr": p.stderr.decode(errors="replace")[:3000], "stdout": p.stdout.decode(errors="replace")[:300], "sha": art}
+
+    # fault-free configuration first
+    packages = {}
+    baseline = {}
+    ff_checks = 0
+    ff_violations = []
+    for name, src in sources.items():
+        pkg = os.path.join(base, name + ".dora-package")
+        p = tb.sh([dora, "compile", "-c", src, "-o", pkg])
+        if p.returncode != 0:
+            harness_error("cannot build package for %s: %s" % (name, p.stderr.decode(errors="replace")[-500:]))
+        packages[name] = open(pkg, "rb").read()
+        r = consume("decoder", pkg, None)
+        ff_checks += 1
+        if r["rc"] != 0:
+            ff_violations.append(({"program": name}, ("roundtrip", "encode(decode(package)) differs or was refused: %s" % r["stdout"])))
+        for consumer in ("cannon", "boots", "dora"):
+            out = os.path.join(base, "%s-%s-base.s" % (name, consumer))
+            r = consume(consumer, pkg, out)
+            if r["rc"] != 0 or r["sha"] is None:
+                harness_error("consumer %s failed on the undamaged package of %s: %s" % (consumer, name, r["stderr"][-300:]))
+            baseline[(name, consumer)] = r["sha"]
+        # building an executable from the package == building it directly from the source
+        a, b = os.path.join(base, name + "-src.exe"), os.path.join(base, name + "-pkg.exe")
+        pa = tb.sh([dora, "compile", "--cannon", src, "-o", a])
+        pb = tb.sh([dora, "compile", "--cannon", pkg, "-o", b])
+        ff_checks += 1
+        if pa.returncode != 0 or pb.returncode != 0:
+            harness_error("executable build failed for %s" % name)
+        if sha(a) != sha(b):
+            ff_violations.append(({"program": name}, ("package-vs-source", "executable built from the package differs from the one built from the source")))
+        os.remove(a)
+        os.remove(b)
+
+    def make(i):
+        rng = tb.stream(s, "C18", i, "fault")
+        name = rng.choices(list(sources), [3, 2, 1])[0]
+        data = packages[name]
+        n = len(data)
+        kind = rng.choices(["truncate", "bitflip", "zero_block", "dup_block", "garbage_tail"], [4, 8, 2, 2, 1])[0]
+        if kind == "truncate":
+            fault = ("truncate", rng.choice([0, 1, n - 1, n // 2, rng.randrange(n), rng.randrange(min(n, 4096))]))
+        elif kind == "bitflip":
+            fault = ("bitflip", rng.randrange(n) if rng.random() < 0.8 else rng.randrange(min(n, 2048)), rng.randrange(8))
+        elif kind == "zero_block":
+            blk = rng.choice([512, 4096])
+            fault = ("zero_block", (rng.randrange(n) // blk) * blk, blk)
+        elif kind == "dup_block":
+            blk = rng.choice([512, 4096])
+            fault = ("dup_block", (rng.randrange(n) // blk) * blk, blk)
+        else:
+            fault = ("garbage_tail", rng.choice([1, 8, 4096]))
+        consumer = rng.choices(["decoder", "cannon", "boots", "dora"], [4, 3, 2, 2])[0]
+        return {"index": i, "program": name, "fault": list(fault), "consumer": consumer}
+
+    def execute(r):
+        data = c18_damage(packages[r["program"]], tuple(r["fault"]))
+        tag = "%d-%d" % (os.getpid(), threading.get_ident())
+        pkg = os.path.join(base, "dmg-%s.dora-package" % tag)
+        out = os.path.join(base, "dmg-%s.s" % tag)
+        with open(pkg, "wb") as f:
+            f.write(data)
+        if os.path.exists(out):
+            os.remove(out)
+        res = consume(r["consumer"], pkg, out)
+        res["unchanged"] = data == packages[r["program"]]
+        for f in (pkg, out):
+            if os.path.exists(f):
+                os.remove(f)
+        return res
+
+    def classify(r, res):
+        if res["timeout"]:
+            return ("hang", "consumer %s did not terminate on %s" % (r["consumer"], r["fault"]))
+        err = res["stderr"]
+        if "panicked at" in err:
+            loc = re.search(r"panicked at ([^\n]+?):(\d+):\d+", err)
+            where = (os.path.basename(loc.group(1)) + ":" + loc.group(2)) if loc else "?"
+            return ("panic:" + where, tb.norm_msg(err.split("panicked at", 1)[1][:200]))
+        if res["rc"] < 0:
+            return ("signal:%d" % -res["rc"], err[:160])
+        if r["consumer"] == "decoder":
+            # 0 = accepted and re-encodes to the damaged bytes (a different but self-consistent
+            # program: decided by the real consumers), 1 = accepted but re-encodes differently, 2 = refused
+            if res["rc"] == 1 and not res["unchanged"]:
+                return None
+            return None
+        if res["rc"] != 0:
+            if len([l for l in err.strip().splitlines() if l.strip()]) > 4:
+                return ("noisy-refusal", "refusal is not a short error message: %r" % err[:200])
+            return None
+        if res["sha"] != baseline[(r["program"], r["consumer"])]:
+            return ("wrong-program", "consumer %s accepted the damaged package (%s) and produced a different artifact" % (r["consumer"], r["fault"]))
+        return None
+
+    # exhaustive single-byte truncation of the smallest package through the real decoder
+    trunc_done = 0
+    trunc_vio = []
+    small = min(packages, key=lambda k: len(packages[k]))
+    stride = 1 if tier == "thorough" else 29
+    positions = list(range(0, len(packages[small]), stride))
+
+    def trunc(k):
+        r = {"index": -1, "program": small, "fault": ["truncate", k], "consumer": "decoder"}
+        res = execute(r)
+        v = classify(r, res)
+        if v is None and res["rc"] == 0:
+            v = ("truncation-accepted", "package truncated at byte %d of %d was accepted by the decoder" % (k, len(packages[small])))
+        return r, res, v
+
+    from concurrent.futures import ThreadPoolExecutor
+    with ThreadPoolExecutor(JOBS) as ex:
+        for r, res, v in ex.map(trunc, positions):
+            trunc_done += 1
+            if v is not None:
+                trunc_vio.append((r, res, v))
+
+    done = pool_run(make, execute, classify, max(5, budget - (time.time() - t0)), stop_on_violation=False)
+    fired = {}
+    outcome = {"refused": 0, "accepted_identical": 0, "decoder_accepted": 0}
+    distinct = set()
+    samples = []
+    vio = [(r, None, v) for (r, v) in ff_violations] + trunc_vio
+    for i in sorted(done):
+        r, res = done[i]
+        fired[r["fault"][0]] = fired.get(r["fault"][0], 0) + 1
+        v = classify(r, res)
+        if v is not None:
+            vio.append((r, res, v))
+            continue
+        distinct.add((r["program"], tuple(r["fault"]), r["consumer"]))
+        if res["rc"] != 0:
+            outcome["refused"] += 1
+        elif r["consumer"] == "decoder":
+            outcome["decoder_accepted"] += 1
+        else:
+            outcome["accepted_identical"] += 1
+        if len(samples) < 4 and (res["rc"] != 0) == (len(samples) % 2 == 0):
+            samples.append({"program": r["program"], "fault": r["fault"], "consumer": r["consumer"], "exit_status": res["rc"],
+                            "stderr": res["stderr"].strip()[:160], "artifact_identical": res["rc"] == 0})
+    exit_code = 0
+    reported = []
+    seen = set()
+    for r, res, v in vio:
+        key = "%s:%s:%s" % (r.get("consumer", "pipeline"), v[0], r.get("fault", ["-"])[0])
+        if key in seen:
+            continue
+        seen.add(key)
+        if res is not None:
+            cres = execute(r)
+            cv = classify(r, cres)
+            if (cv is None or cv[0] != v[0]) and v[0] != "truncation-accepted":
+                harness_error("C18 violation %s did not reproduce" % (v,))
+        rp = save_replay("C18", {"property": "C18", "tier": "C", "case": r, "violation_class": v[0], "violation": v[1]})
+        k = match_known("C18", key)
+        if k:
+            report_known("C18", k["what"])
+        else:
+            report_violation("C18", rp)
+            log("  key=%s detail=%s" % (key, v[1]))
+            exit_code = 1
+        reported.append({"class": v[0], "detail": v[1], "replay": rp, "key": key, "occurrences": sum(1 for x in vio if x[2][0] == v[0])})
+    shutil.rmtree(base, ignore_errors=True)
+    wall = time.time() - t0
+    coverage = {
+        "evaluations": len(done) + trunc_done + ff_checks,
+        "distinct_nontrivial": len(distinct) + trunc_done,
+        "rule": "one evaluation = one damaged package (truncate@k, bitflip@(byte,bit), zeroed 512/4096-byte block, duplicated block, garbage tail) of a package written by the real front end, read by one real consumer (decoder helper linked against dora-bytecode, dora-cannon-compiler, boots compiler, dora compile <pkg>); plus the strided/exhaustive single-byte truncation sweep of the smallest package through the decoder; plus the fault-free checks (re-encode == bytes, package->executable == source->executable); "
+                "distinct non-trivial = distinct (package, fault, consumer) whose outcome was 'refused cleanly' or 'accepted with identical artifact'",
+        "samples": samples,
+        "exhaustive": False,
+        "truncation_sweep": {"package": small, "bytes": len(packages[small]), "stride": stride, "positions": trunc_done},
+        "fault_kinds_fired": fired,
+        "outcomes": outcome,
+        "fault_free_checks": ff_checks,
+        "runs_per_hour": int((len(done) + trunc_done) / max(wall, 1) * 3600),
+        "components_real": ["packages written by the real dora compile -c", "real decoders: dora-bytecode (helper), dora-cannon-compiler, boots stage1, dora compile <package>"],
+        "components_stub": ["the storage medium: damage is applied to the file between writer and reader"],
+        "violations_reported": reported,
+        "level_text": "fault kinds enumerated, positions sampled (truncation: strided in quick, exhaustive in thorough for the smallest package)",
+    }
+    write_evidence("C18", tier, "fault_enumeration", coverage, wall, len(reported),
+                   ["only the fault_sequences part of C18 is decided here; the bytecode writer/reader round trip over random instruction sequences is a pure function (not a simulation target)",
+                    "consumers run under RLIMIT_AS = 6 GiB so that a corrupted length prefix cannot exhaust the machine"])
+    log("C18: %d damaged-package runs + %d truncation points, outcomes %s, %d violation class(es), %.1fs" % (len(done), trunc_done, outcome, len(reported), wall))
+    return exit_code
